@@ -45,6 +45,10 @@ func propC13(c *Ctx, r *Report) {
 	r.NotDec = "that every other well-formed conversion is executed, beyond the fall-through reaching recordBatch in the table; 'leaves balances untouched' is the write-before-reject rule of C03"
 	r.Trusted = []string{"mainnet activation constants", "go/ssa", "expected one-way set transcribed from the doc comment of config.OneWaySmallAssetsConversions (the comment is not parsed at check time)"}
 	e := newEraCtx(c, r)
+	// "average unavailable" is decided on the window: after skipped heights the incremental path must hold what a
+	// reload would (shared with C07-R3/C09)
+	r.rule("C13/average-window", 1, "the incrementally maintained averaging window equals a reloaded one in size and membership")
+	windowSize(c, r, "C13/average-window")
 	tick, max := c.tickers()
 	small := map[int64]bool{}
 	for _, n := range smallOneWay {
